@@ -423,6 +423,8 @@ def main():
         for k, f in rep["functions"].items():
             f = dict(f)
             f["dropped_logger_lines"] = rep["dropped"].get(k, [])
+            # source-level readings the generator applied to this unit (each is part of the trusted encoding, stated here)
+            f["idiom_rewrites"] = (rep.get("idioms") or {}).get(k, [])
             functions[k] = f
     samples = []
     for v in list(proof_obls.values())[:6]:
